@@ -82,8 +82,9 @@ class BusProtocol (txdbus.protocol.BasicDBusProtocol):
 
         msg.sender = self.uniqueName
 
-        # re-marshal with the sender set and same serial number
-        msg._marshal(False)
+        # re-marshal with the sender set and same serial number; the body
+        # travels on exactly as it arrived
+        msg._marshal(False, reuseBody=True)
 
         self.bus.messageReceived(self, msg)
 
